@@ -121,6 +121,9 @@ package elfexec
 //@   conclude c3: offset < phdrs[s].Off + phdrs[s].Memsz
 //@   conclude c4: phdrs[s].Off < offset + (limit - start)
 //@   conclude c5: !(offset < ite(phdrs[s].Off > (phdrs[s].Vaddr & 4095), phdrs[s].Off - (phdrs[s].Vaddr & 4095), 0))
+//@   conclude h6a: phdrs[s].Off + phdrs[s].Filesz <= phdrs[s].Off + phdrs[s].Memsz && phdrs[s].Off + phdrs[s].Filesz >= phdrs[s].Off
+//@   conclude h6b: phdrs[s].Off + phdrs[s].Filesz + 4096 <= phdrs[s].Off + phdrs[s].Memsz + 4096
+//@   conclude h6: offset + (limit - start) < phdrs[s].Off + phdrs[s].Memsz + 4096
 //@   conclude c6: !(offset > phdrs[s].Off && phdrs[s].Off + phdrs[s].Memsz < offset + 4096
 //@       && offset + (limit - start) >= phdrs[s].Off + phdrs[s].Memsz + 4096)
 //@   conclude selected: phsel(elem_addr(phdrs, s), offset, limit - start)
@@ -132,5 +135,10 @@ package elfexec
 //@   conclude fo: hmatch(elem_addr(phdrs, s), addr - start + offset)
 //@   call h, err := HeaderForFileOffset(headers, addr - start + offset)
 //@   conclude chosen: err == nil ==> h == elem_addr(phdrs, s)
+//@   conclude nofake: !fakemap(start, limit, offset)
+//@   conclude user: usermode(nil, start)
+//@   conclude nk1: !k1(elem_addr(phdrs, s), start, offset)
+//@   conclude nokernel: !kmatch(elem_addr(phdrs, s), nil, start, limit, offset)
+//@   conclude dynb: dynbase(elem_addr(phdrs, s), start, offset) == B
 //@   call base, err2 := GetBase(fh, elem_addr(phdrs, s), nil, start, limit, offset)
 //@   conclude base: err2 == nil && base == B
